@@ -650,9 +650,8 @@ func (ep *l2Ep) endBlock(dt int64) string {
 func (ep *l2Ep) upsert(d l2types.Dapp) string {
 	ctx := ep.cctx()
 	h := layer2.NewApplyUpsertDappProposalHandler(ep.k)
-	err := withCache(ctx, func(c sdk.Context) error {
-		return h.Apply(c, 1, &l2types.ProposalUpsertDapp{Sender: ep.w.addrs[0].String(), Dapp: d}, sdk.ZeroDec())
-	})
+	_ = h
+	err := ep.w.Enact(ctx, 1, &l2types.ProposalUpsertDapp{Sender: ep.w.addrs[0].String(), Dapp: d})
 	out := l2ErrClass(err)
 	op := fmt.Sprintf("l2 upsert %s bden=%s bond=%s ctime=%d status=%d", ep.dappFields(d), encS(d.TotalBond.Denom), intStr(d.TotalBond.Amount), d.CreationTime, int(d.Status))
 	ep.line(op, out)
